@@ -1,5 +1,5 @@
 From Coq Require Import Extraction ExtrOcamlBasic.
-From CV Require Import Base.Num C18.ValueModel C02.ValueModel.
+From CV Require Import Base.Num C18.ValueModel C02.ValueModel C02.LoadModel.
 Extraction Language OCaml.
 Extraction "model.ml" mkNumOps nhalf position_distance mkAtom mk_group total_mass total_charge com cog dipole
   cv_distance cv_distance_vec cv_distance_dir cv_distance_z_fixed cv_distance_z_ref2
@@ -9,4 +9,4 @@ Extraction "model.ml" mkNumOps nhalf position_distance mkAtom mk_group total_mas
   rotation_matrix rotate corr_matrix overlap_matrix mat4_vec quad_form sq_dev sq_norms
   qmul qconj fit_pairs fit_positions cv_rmsd cv_eigenvector orient_pairs cv_orientation cv_orientation_angle
   cv_orientation_proj cv_spin_angle cv_tilt cv_euler_phi cv_euler_psi cv_euler_theta cv_distance_pairs
-  pairlist_build cv_coordnum_pl.
+  pairlist_build cv_coordnum_pl sorted_ids sorted_map load_coords fit_general flat_coords cv_rmsd_perm.
